@@ -412,6 +412,8 @@ func (r *run) splitCases(d *Design) {
 	}
 }
 
+var streamHandlerLines []string
+
 var splitLines, runtimeLines, reqmdLines, historyLines, orderLines, rejectLines []string
 
 // membersTerm renders designed members as Model.member terms (must-reject designs: goa's
@@ -638,6 +640,7 @@ func main() {
 		}
 		runtimeLines = r.runtimeStream(rng.Fork(), nrt)
 		historyLines = r.historyStream(rng.Fork(), nrt/10, nrt/4)
+		streamHandlerLines = r.streamHandlerStream(rng.Fork(), nrt/2)
 		if *tier == "thorough" {
 			tierB(r, rng.Fork(), *out, *repo)
 		}
@@ -656,6 +659,7 @@ func finish(r *run, out string) {
 	writeLines(filepath.Join(out, "cases_order.txt"), orderLines)
 	writeLines(filepath.Join(out, "cases_reject.txt"), rejectLines)
 	writeLines(filepath.Join(out, "cases_history.txt"), historyLines)
+	writeLines(filepath.Join(out, "cases_streamhandler.txt"), streamHandlerLines)
 	r.res.Distinct = len(r.distinct)
 	r.res.Rule = "designs are built through goa's public DSL from generated descriptions (fixed covering set, then seed-driven random designs inside the partial hypotheses, then the hostile attribute-name stream, then one witness design per recorded finding); a case is one rendered .proto file (or one attribute name of the name stream); distinct = distinct SHA-256 of the rendered text / of the name; every rendered file has a service block and at least two messages, so none is trivial"
 	if err := r.res.Write(filepath.Join(out, "result.json")); err != nil {
